@@ -97,13 +97,17 @@ IsScaledT(t) == t.k = "scaled"
 TextRadix(t) == IF RadixOf(t) = 0 THEN 2 ELSE RadixOf(t)
 
 \* one to_chars call: judged for C13 (buffer) and, when it succeeded, for C14 (text); the class tells which
+\* the most negative value of a built-in integer, or of a wide_integer's declared digits (-2^digits)
+MostNegativeOf(t, v) ==
+    ~IsScaledT(t) /\ \/ (InnerT(t).k = "int" /\ InnerT(t).s = 1 /\ v = TMin(AsIntT(InnerT(t))))
+                     \/ (t.k = "wide" /\ InnerT(t).s = 1 /\ v = Neg(Pow2(t.digits)))
 JudgeTc(e, i) ==
     LET bd == BufferDiag(e)
         v == J(e.v)
         td == IF bd # "ok" \/ e.ec # 0 THEN "ok"
               ELSE IF IsScaledT(i.lt) THEN ScaledTextDiag(e.txt, v, TextRadix(i.lt), ExpOf(i.lt), e.cap >= i.capacity)
               ELSE IF IntTextOK(e.txt, v, i.base) THEN "ok" ELSE "text_not_value"
-        mostNeg == ~IsScaledT(i.lt) /\ InnerT(i.lt).k = "int" /\ InnerT(i.lt).s = 1 /\ v = TMin(AsIntT(InnerT(i.lt)))
+        mostNeg == MostNegativeOf(i.lt, v)
         cls == <<"Tc", IF IsScaledT(i.lt) THEN "scaled" ELSE "int", i.base, IF mostNeg THEN "most_negative" ELSE IF v.n THEN "neg" ELSE "pos",
                  IF e.cap = 0 THEN "cap0" ELSE IF e.cap < i.capacity THEN "short" ELSE "full">>
     IN [d |-> IF bd # "ok" THEN bd ELSE td, nt |-> e.cap < i.capacity \/ v.n, cls |-> cls]
@@ -111,7 +115,7 @@ JudgeTc(e, i) ==
 \* fixed-capacity variants: always succeed and print the same text as to_chars with the static capacity
 JudgeTcStatic(e, i) ==
     LET v == J(e.v)
-        mostNeg == ~IsScaledT(i.lt) /\ InnerT(i.lt).k = "int" /\ InnerT(i.lt).s = 1 /\ v = TMin(AsIntT(InnerT(i.lt)))
+        mostNeg == MostNegativeOf(i.lt, v)
         cls == <<"TcStatic", IF IsScaledT(i.lt) THEN "scaled" ELSE "int", i.base, IF mostNeg THEN "most_negative" ELSE IF v.n THEN "neg" ELSE "pos">>
         td == IF IsScaledT(i.lt) THEN ScaledTextDiag(e.txt, v, TextRadix(i.lt), ExpOf(i.lt), TRUE)
               ELSE IF IntTextOK(e.txt, v, i.base) THEN "ok" ELSE "text_not_value"
